@@ -15,6 +15,7 @@ import (
 	"path/filepath"
 	"regexp"
 	"strings"
+	"sync"
 	"time"
 
 	"golang.org/x/tools/go/ssa"
@@ -25,11 +26,23 @@ type ReplayCtx struct {
 	vc   *VC
 	o    *Obl
 	dir  string
+	// extra constraints added to the obligation's query when a model is asked for (size bounds that
+	// make the counterexample small enough to be run)
+	extra []string
+	// solver budget for model queries in ms (default 20000)
+	evalMs int
 }
 
 // Eval asks the solver that produced the model for the values of terms.
 func (rc *ReplayCtx) Eval(terms ...string) ([]string, bool) {
 	q := rc.vc.Query(rc.o)
+	if len(rc.extra) > 0 {
+		q = strings.TrimSuffix(q, "(check-sat)\n")
+		for _, e := range rc.extra {
+			q += "(assert " + e + ")\n"
+		}
+		q += "(check-sat)\n"
+	}
 	q += "(get-value (" + strings.Join(terms, " ") + "))\n"
 	file := filepath.Join(rc.dir, "replay-eval.smt2")
 	os.WriteFile(file, []byte(q), 0o644)
@@ -37,8 +50,12 @@ func (rc *ReplayCtx) Eval(terms ...string) ([]string, bool) {
 		if s != "z3" && s != "z3-new" {
 			continue
 		}
-		ctx, cancel := context.WithTimeout(context.Background(), 30*time.Second)
-		out, _ := exec.CommandContext(ctx, s, "-t:20000", file).CombinedOutput()
+		ms := rc.evalMs
+		if ms == 0 {
+			ms = 20000
+		}
+		ctx, cancel := context.WithTimeout(context.Background(), time.Duration(ms+10000)*time.Millisecond)
+		out, _ := exec.CommandContext(ctx, s, fmt.Sprintf("-t:%d", ms), file).CombinedOutput()
 		cancel()
 		txt := string(out)
 		i := strings.Index(txt, "sat")
@@ -241,6 +258,12 @@ func (rc *ReplayCtx) findCall(sub string) *ssa.Call {
 	return nil
 }
 
+var (
+	pureMu        sync.Mutex
+	pureConfirmed = map[string]string{}
+	pureTries     = map[string]int{}
+)
+
 type replayGen func(rc *ReplayCtx) (pkgDir, testName, src string, ok bool)
 
 var replayGens = map[string]replayGen{}
@@ -268,7 +291,7 @@ func runOverlayTest(repo, pkgDir, testName, src, dir string) (failed bool, outpu
 	os.WriteFile(ovFile, ovData, 0o644)
 	ctx, cancel := context.WithTimeout(context.Background(), 180*time.Second)
 	defer cancel()
-	cmd := exec.CommandContext(ctx, "go", "test", "-overlay", ovFile, "-vet=off", "-count=1", "-timeout", "60s", "-run", "^"+testName+"$", "./"+pkgDir)
+	cmd := exec.CommandContext(ctx, "go", "test", "-v", "-overlay", ovFile, "-vet=off", "-count=1", "-timeout", "60s", "-run", "^"+testName+"$", "./"+pkgDir)
 	cmd.Dir = repo
 	cmd.Env = append(os.Environ(), "GOFLAGS=-mod=mod", "GOPROXY=off", "GOSUMDB=off", "GOTOOLCHAIN=local")
 	var buf bytes.Buffer
@@ -292,6 +315,37 @@ func tryReplay(prog *Program, vc *VC, o *Obl, verif string) (bool, string) {
 	}
 	gen, ok := replayGens[vc.pkg.Name()+"."+vc.name]
 	if !ok {
+		if skipRecv, pure := pureEligible(vc); pure {
+			if o.Result != "sat" {
+				return false, "the solver gave no model"
+			}
+			key := vc.pkg.Path() + "." + vc.name
+			// counter-models of postconditions are the likeliest to be real inputs: they have their own
+			// budget, so that loop-cut and safety obligations listed earlier cannot use it up
+			tkey, limit := key+"/other", 2
+			if o.Kind == "post" {
+				tkey, limit = key+"/post", 3
+			}
+			pureMu.Lock()
+			done, tries := pureConfirmed[key], pureTries[tkey]
+			pureTries[tkey]++
+			pureMu.Unlock()
+			if done != "" {
+				return false, "a counterexample of this function was already replayed on the real code (see obligation " + done + ")"
+			}
+			if tries >= limit {
+				return false, "replay budget of this function used up by its other failing obligations"
+			}
+			dir, _ := os.MkdirTemp("/var/tmp", "govc-replay-")
+			defer os.RemoveAll(dir)
+			ok, line := replayPure(&ReplayCtx{prog: prog, vc: vc, o: o, dir: dir, evalMs: 8000}, skipRecv)
+			if ok {
+				pureMu.Lock()
+				pureConfirmed[key] = o.Name
+				pureMu.Unlock()
+			}
+			return ok, line
+		}
 		return false, "no replay generator for this function"
 	}
 	dir, _ := os.MkdirTemp("/var/tmp", "govc-replay-")
